@@ -1076,6 +1076,12 @@ static void gen_expr(Node *node) {
       println("  movd %%eax, %%xmm0");
     else if (node->ty->kind == TY_DOUBLE)
       println("  movq %%rax, %%xmm0");
+    else if (sz == 1)
+      // The old value of a char or short object is extended to 32 bits,
+      // as load() does: xchg leaves the upper bits of the new value.
+      println("  %s %%al, %%eax", node->ty->is_unsigned ? "movzbl" : "movsbl");
+    else if (sz == 2)
+      println("  %s %%ax, %%eax", node->ty->is_unsigned ? "movzwl" : "movswl");
     return;
   }
   }
